@@ -15,6 +15,7 @@ pub mod c09;
 pub mod c10;
 pub mod c11;
 pub mod c12;
+pub mod c13;
 pub mod c06;
 pub mod codes;
 pub mod c07;
@@ -33,6 +34,7 @@ pub fn run(prop: &str, ctx: &Ctx) -> Option<Report> {
         "C10" => c10::run(ctx),
         "C11" => c11::run(ctx),
         "C12" => c12::run(ctx),
+        "C13" => c13::run(ctx),
         "C06" => c06::run(ctx),
         "C07" => c07::run(ctx),
         "C08" => c08::run(ctx),
@@ -52,6 +54,7 @@ pub fn replay(prop: &str, case: &str, rep: &mut Report) -> bool {
         "C10" => c10::replay(case, rep),
         "C11" => c11::replay(case, rep),
         "C12" => c12::replay(case, rep),
+        "C13" => c13::replay(case, rep),
         "C06" => c06::replay(case, rep),
         "C07" => c07::replay(case, rep),
         "C08" => c08::replay(case, rep),
